@@ -14,9 +14,9 @@ CHECKS = {
         "assumptions": ["scheduling points exist only at intercepted synchronisation calls (plus atomics in the race flavour)",
                         "pthread mutex/condvar semantics as modelled in simrt/core.cpp"],
         "jobs": [
-            {"harness": "c10_bq", "flavour": "asan", "runs": {"quick": 6000, "thorough": 400000}, "wall": {"quick": 20, "thorough": 600}, "seed_off": 1},
-            {"harness": "c10_bq", "flavour": "tsan", "runs": {"quick": 3000, "thorough": 200000}, "wall": {"quick": 15, "thorough": 600}, "seed_off": 2},
-            {"harness": "c10_ring", "flavour": "tsan", "runs": {"quick": 6000, "thorough": 600000}, "wall": {"quick": 20, "thorough": 900}, "seed_off": 3},
+            {"harness": "c10_bq", "flavour": "asan", "runs": {"quick": 6000, "thorough": 400000}, "wall": {"quick": 20, "thorough": 300}, "seed_off": 1},
+            {"harness": "c10_bq", "flavour": "tsan", "runs": {"quick": 3000, "thorough": 200000}, "wall": {"quick": 15, "thorough": 300}, "seed_off": 2},
+            {"harness": "c10_ring", "flavour": "tsan", "runs": {"quick": 6000, "thorough": 600000}, "wall": {"quick": 20, "thorough": 300}, "seed_off": 3},
             {"harness": "c10_ring", "flavour": "asan", "runs": {"quick": 6000, "thorough": 300000}, "wall": {"quick": 10, "thorough": 300}, "seed_off": 4},
         ],
     },
@@ -31,7 +31,7 @@ CHECKS = {
         "assumptions": ["members are not called concurrently with the destructor (submitters are joined first); stop/drain/shutdown do race submitters",
                         "scheduling points only at intercepted synchronisation calls"],
         "jobs": [
-            {"harness": "c09_tp", "flavour": "asan", "runs": {"quick": 50000, "thorough": 2000000}, "wall": {"quick": 50, "thorough": 1500}},
+            {"harness": "c09_tp", "flavour": "asan", "runs": {"quick": 50000, "thorough": 2000000}, "wall": {"quick": 50, "thorough": 300}},
         ],
     },
     "C07": {
@@ -53,9 +53,9 @@ CHECKS = {
                         "connections made to an IP literal need no name match (property: 'for connections made to a host name')",
                         "a server's verifyPeer means client certificates are required"],
         "jobs": [
-            {"harness": "c07_tls", "mode": "client", "flavour": "asan", "runs": {"quick": 1400, "thorough": 150000}, "wall": {"quick": 90, "thorough": 2400}, "seed_off": 1},
-            {"harness": "c07_tls", "mode": "server", "flavour": "asan", "runs": {"quick": 1400, "thorough": 150000}, "wall": {"quick": 70, "thorough": 2400}, "seed_off": 2},
-            {"harness": "c07_tls", "mode": "http", "flavour": "asan", "runs": {"quick": 3000, "thorough": 300000}, "wall": {"quick": 40, "thorough": 2400}, "seed_off": 3},
+            {"harness": "c07_tls", "mode": "client", "flavour": "asan", "runs": {"quick": 1400, "thorough": 150000}, "wall": {"quick": 90, "thorough": 300}, "seed_off": 1},
+            {"harness": "c07_tls", "mode": "server", "flavour": "asan", "runs": {"quick": 1400, "thorough": 150000}, "wall": {"quick": 70, "thorough": 300}, "seed_off": 2},
+            {"harness": "c07_tls", "mode": "http", "flavour": "asan", "runs": {"quick": 3000, "thorough": 300000}, "wall": {"quick": 40, "thorough": 300}, "seed_off": 3},
         ],
     },
     "C08": {
@@ -70,9 +70,9 @@ CHECKS = {
         "stub": COMMON_STUB + ["epoll/timerfd/eventfd (simulated kernel)"],
         "assumptions": ["TimingWheel::advance() is not called manually while the tick thread runs", "one terminating thread (stop/drain are not raced with each other)"],
         "jobs": [
-            {"harness": "c08_timers", "mode": "svc", "flavour": "asan", "runs": {"quick": 12000, "thorough": 600000}, "wall": {"quick": 25, "thorough": 600}, "seed_off": 1},
-            {"harness": "c08_timers", "mode": "pool", "flavour": "asan", "runs": {"quick": 6000, "thorough": 300000}, "wall": {"quick": 15, "thorough": 400}, "seed_off": 2},
-            {"harness": "c08_timers", "mode": "wheel", "flavour": "asan", "runs": {"quick": 15000, "thorough": 800000}, "wall": {"quick": 25, "thorough": 600}, "seed_off": 3},
+            {"harness": "c08_timers", "mode": "svc", "flavour": "asan", "runs": {"quick": 12000, "thorough": 600000}, "wall": {"quick": 25, "thorough": 300}, "seed_off": 1},
+            {"harness": "c08_timers", "mode": "pool", "flavour": "asan", "runs": {"quick": 6000, "thorough": 300000}, "wall": {"quick": 15, "thorough": 300}, "seed_off": 2},
+            {"harness": "c08_timers", "mode": "wheel", "flavour": "asan", "runs": {"quick": 15000, "thorough": 800000}, "wall": {"quick": 25, "thorough": 300}, "seed_off": 3},
         ],
     },
     "C01": {
@@ -87,8 +87,8 @@ CHECKS = {
         "assumptions": ["sends start at the announce callback (accept / connect / TLS handshake completion)", "default close-on-backpressure policy",
                         "the simulated kernel produces only behaviour a Linux kernel can produce (short writes only with a following writability edge)"],
         "jobs": [
-            {"harness": "c01_tcp", "mode": "plain", "flavour": "asan", "runs": {"quick": 4500, "thorough": 400000}, "wall": {"quick": 40, "thorough": 1500}, "seed_off": 1},
-            {"harness": "c01_tcp", "mode": "tls", "flavour": "asan", "runs": {"quick": 1500, "thorough": 120000}, "wall": {"quick": 30, "thorough": 1200}, "seed_off": 2},
+            {"harness": "c01_tcp", "mode": "plain", "flavour": "asan", "runs": {"quick": 4500, "thorough": 400000}, "wall": {"quick": 40, "thorough": 300}, "seed_off": 1},
+            {"harness": "c01_tcp", "mode": "tls", "flavour": "asan", "runs": {"quick": 1500, "thorough": 120000}, "wall": {"quick": 30, "thorough": 300}, "seed_off": 2},
         ],
     },
     "C02": {
@@ -103,8 +103,8 @@ CHECKS = {
         "assumptions": ["one user-data object per session (a second setSessionData replaces the first without cleanup by design)",
                         "gauge compared only inside I/O-thread callbacks, where the session table is quiescent"],
         "jobs": [
-            {"harness": "c02_lifecycle", "mode": "tcp", "flavour": "asan", "runs": {"quick": 14000, "thorough": 1500000}, "wall": {"quick": 35, "thorough": 1500}, "seed_off": 1},
-            {"harness": "c02_lifecycle", "mode": "udp", "flavour": "asan", "runs": {"quick": 7000, "thorough": 600000}, "wall": {"quick": 30, "thorough": 1200}, "seed_off": 2},
+            {"harness": "c02_lifecycle", "mode": "tcp", "flavour": "asan", "runs": {"quick": 14000, "thorough": 1500000}, "wall": {"quick": 35, "thorough": 300}, "seed_off": 1},
+            {"harness": "c02_lifecycle", "mode": "udp", "flavour": "asan", "runs": {"quick": 7000, "thorough": 600000}, "wall": {"quick": 30, "thorough": 300}, "seed_off": 2},
         ],
     },
     "C03": {
@@ -118,7 +118,7 @@ CHECKS = {
         "assumptions": ["one receiveSync at a time per session (single-waiter contract)", "at most one data callback may be in flight when Disabled takes effect",
                         "overflow runs stay in Sync mode"],
         "jobs": [
-            {"harness": "c03_syncrecv", "flavour": "asan", "runs": {"quick": 16000, "thorough": 1500000}, "wall": {"quick": 45, "thorough": 1800}},
+            {"harness": "c03_syncrecv", "flavour": "asan", "runs": {"quick": 16000, "thorough": 1500000}, "wall": {"quick": 45, "thorough": 300}},
         ],
     },
     "C04": {
@@ -132,7 +132,7 @@ CHECKS = {
         "assumptions": ["return-time bound = timeout + simulator-injected stall + 60 ms (+2.4 s for host names: the engine's DNS guard, +110 ms for cancellable calls: 100 ms polling)",
                         "the engine's shutdown close reason (Unknown, 'shutdown') counts as the definite 'shutting down' error"],
         "jobs": [
-            {"harness": "c04_connectsync", "flavour": "asan", "runs": {"quick": 9000, "thorough": 900000}, "wall": {"quick": 45, "thorough": 1800}},
+            {"harness": "c04_connectsync", "flavour": "asan", "runs": {"quick": 9000, "thorough": 900000}, "wall": {"quick": 45, "thorough": 300}},
         ],
     },
     "C05": {
@@ -148,10 +148,10 @@ CHECKS = {
                         "a data callback run synchronously by the caller's own Sync->Async flush is not a transport-initiated callback",
                         "call-return bound = the call's own timeout + simulator-injected stall + 100 ms"],
         "jobs": [
-            {"harness": "c05_teardown", "mode": "tcp", "flavour": "asan", "runs": {"quick": 4500, "thorough": 800000}, "wall": {"quick": 35, "thorough": 1500}, "seed_off": 1},
-            {"harness": "c05_teardown", "mode": "udp", "flavour": "asan", "runs": {"quick": 2500, "thorough": 400000}, "wall": {"quick": 20, "thorough": 900}, "seed_off": 2},
-            {"harness": "c05_teardown", "mode": "tcp", "flavour": "tsan", "runs": {"quick": 2000, "thorough": 300000}, "wall": {"quick": 25, "thorough": 1200}, "seed_off": 3},
-            {"harness": "c05_teardown", "mode": "udp", "flavour": "tsan", "runs": {"quick": 1500, "thorough": 150000}, "wall": {"quick": 15, "thorough": 600}, "seed_off": 4},
+            {"harness": "c05_teardown", "mode": "tcp", "flavour": "asan", "runs": {"quick": 4500, "thorough": 800000}, "wall": {"quick": 35, "thorough": 300}, "seed_off": 1},
+            {"harness": "c05_teardown", "mode": "udp", "flavour": "asan", "runs": {"quick": 2500, "thorough": 400000}, "wall": {"quick": 20, "thorough": 300}, "seed_off": 2},
+            {"harness": "c05_teardown", "mode": "tcp", "flavour": "tsan", "runs": {"quick": 2000, "thorough": 300000}, "wall": {"quick": 25, "thorough": 300}, "seed_off": 3},
+            {"harness": "c05_teardown", "mode": "udp", "flavour": "tsan", "runs": {"quick": 1500, "thorough": 150000}, "wall": {"quick": 15, "thorough": 300}, "seed_off": 4},
         ],
     },
     "C06": {
@@ -164,7 +164,7 @@ CHECKS = {
         "stub": COMMON_STUB + ["kernel UDP sockets, epoll, eventfd, timerfd (simrt/net.cpp) incl. loss, duplication, reordering, EAGAIN", "remote peers (scripted)"],
         "assumptions": ["default ioReadChunk (64 KiB) so that no datagram exceeds the receive buffer", "peer datagrams carry a 15-byte identifying header"],
         "jobs": [
-            {"harness": "c06_udp", "flavour": "asan", "runs": {"quick": 12000, "thorough": 1200000}, "wall": {"quick": 45, "thorough": 1800}},
+            {"harness": "c06_udp", "flavour": "asan", "runs": {"quick": 12000, "thorough": 1200000}, "wall": {"quick": 45, "thorough": 300}},
         ],
     },
     "C11": {
@@ -179,8 +179,8 @@ CHECKS = {
         "stub": ["the crash itself: images are rebuilt from the logged operation prefix (process-crash model: every completed write survives)", "clock (simulated, TTLs are far in the future here)"],
         "assumptions": ["process-crash model as the property states: no page-cache loss, fsync is a no-op", "a write() is atomic up to the chosen cut (torn at byte granularity)"],
         "jobs": [
-            {"harness": "c11_kvcrash", "mode": "kv", "flavour": "asan", "runs": {"quick": 700, "thorough": 60000}, "wall": {"quick": 40, "thorough": 1800}, "seed_off": 1},
-            {"harness": "c11_kvcrash", "mode": "json", "flavour": "asan", "runs": {"quick": 1200, "thorough": 60000}, "wall": {"quick": 15, "thorough": 600}, "seed_off": 2},
+            {"harness": "c11_kvcrash", "mode": "kv", "flavour": "asan", "runs": {"quick": 700, "thorough": 60000}, "wall": {"quick": 40, "thorough": 300}, "seed_off": 1},
+            {"harness": "c11_kvcrash", "mode": "json", "flavour": "asan", "runs": {"quick": 1200, "thorough": 60000}, "wall": {"quick": 15, "thorough": 300}, "seed_off": 2},
         ],
     },
     "C12": {
@@ -196,8 +196,8 @@ CHECKS = {
         "assumptions": ["sequential mode: simulated time does not advance inside an operation (step cost 0) and CLOCK_REALTIME is millisecond-aligned, so persisted (ms) and in-memory expiries coincide",
                         "only forward clock movement"],
         "jobs": [
-            {"harness": "c12_kvmodel", "mode": "seq", "flavour": "asan", "runs": {"quick": 7000, "thorough": 600000}, "wall": {"quick": 35, "thorough": 1800}, "seed_off": 1},
-            {"harness": "c12_kvmodel", "mode": "conc", "flavour": "asan", "runs": {"quick": 8000, "thorough": 800000}, "wall": {"quick": 15, "thorough": 900}, "seed_off": 2},
+            {"harness": "c12_kvmodel", "mode": "seq", "flavour": "asan", "runs": {"quick": 7000, "thorough": 600000}, "wall": {"quick": 35, "thorough": 300}, "seed_off": 1},
+            {"harness": "c12_kvmodel", "mode": "conc", "flavour": "asan", "runs": {"quick": 8000, "thorough": 800000}, "wall": {"quick": 15, "thorough": 300}, "seed_off": 2},
         ],
     },
     "C15": {
@@ -220,8 +220,8 @@ CHECKS = {
                         "valid requests that precede a hostile one on the same connection are only checked if they reached a handler (the rejection may close the connection first)",
                         "peak buffering is bounded indirectly: 2 MiB of unterminated input must end in a close (the server's cap is 1 MiB per session); allocator census not implemented"],
         "jobs": [
-            {"harness": "c15_http", "mode": "server", "flavour": "asan", "runs": {"quick": 5000, "thorough": 400000}, "wall": {"quick": 45, "thorough": 2400}, "seed_off": 1},
-            {"harness": "c15_http", "mode": "client", "flavour": "asan", "runs": {"quick": 2500, "thorough": 250000}, "wall": {"quick": 70, "thorough": 2400}, "seed_off": 2},
+            {"harness": "c15_http", "mode": "server", "flavour": "asan", "runs": {"quick": 5000, "thorough": 400000}, "wall": {"quick": 45, "thorough": 300}, "seed_off": 1},
+            {"harness": "c15_http", "mode": "client", "flavour": "asan", "runs": {"quick": 2500, "thorough": 250000}, "wall": {"quick": 70, "thorough": 300}, "seed_off": 2},
         ],
     },
     "C16": {
@@ -239,7 +239,7 @@ CHECKS = {
         "assumptions": ["a reset travels behind data the closing side had already transmitted (Linux keeps received data readable); responses larger than the peer's receive window that are cut by a close-with-unread-data reset are therefore not explored",
                         "HTTP/1.0 requests are only sent as the last request of a connection (the property does not say whether the server must close after them)"],
         "jobs": [
-            {"harness": "c16_order", "flavour": "asan", "runs": {"quick": 12000, "thorough": 1200000}, "wall": {"quick": 35, "thorough": 2400}},
+            {"harness": "c16_order", "flavour": "asan", "runs": {"quick": 12000, "thorough": 1200000}, "wall": {"quick": 35, "thorough": 300}},
         ],
     },
     "C17": {
@@ -257,7 +257,7 @@ CHECKS = {
         "stub": COMMON_STUB,
         "assumptions": ["'reached the wire' is judged at the receiving socket: bytes the client handed to its kernel but that were destroyed by a reset before arriving are not counted"],
         "jobs": [
-            {"harness": "c17_retry", "flavour": "asan", "runs": {"quick": 2500, "thorough": 250000}, "wall": {"quick": 80, "thorough": 2400}},
+            {"harness": "c17_retry", "flavour": "asan", "runs": {"quick": 2500, "thorough": 250000}, "wall": {"quick": 80, "thorough": 300}},
         ],
     },
     "C18": {
@@ -281,8 +281,8 @@ CHECKS = {
                         "what an endpoint delivers or answers behind a hostile header is not judged, only that it neither throws nor hoards",
                         "parse(serialize(f)) on its own is a pure function; it is exercised here only through the two endpoints against the independent codec"],
         "jobs": [
-            {"harness": "c18_ws", "mode": "server", "flavour": "asan", "runs": {"quick": 6000, "thorough": 600000}, "wall": {"quick": 40, "thorough": 2400}, "seed_off": 1},
-            {"harness": "c18_ws", "mode": "client", "flavour": "asan", "runs": {"quick": 5000, "thorough": 500000}, "wall": {"quick": 50, "thorough": 2400}, "seed_off": 2},
+            {"harness": "c18_ws", "mode": "server", "flavour": "asan", "runs": {"quick": 6000, "thorough": 600000}, "wall": {"quick": 40, "thorough": 300}, "seed_off": 1},
+            {"harness": "c18_ws", "mode": "client", "flavour": "asan", "runs": {"quick": 5000, "thorough": 500000}, "wall": {"quick": 50, "thorough": 300}, "seed_off": 2},
         ],
     },
     "C19": {
@@ -309,8 +309,8 @@ CHECKS = {
                         "the decode clauses are pure functions of the message; they are decided here only as far as the network job's generator and fault plan reach them (messages arrive as datagrams / TCP segments through the real transport) - no separate exhaustive byte-level mutation campaign",
                         "truncated or bit-flipped responses may decode to something or fail: only termination in time and memory safety (ASan/UBSan) are judged for them"],
         "jobs": [
-            {"harness": "c19_dnscache", "flavour": "asan", "runs": {"quick": 12000, "thorough": 1500000}, "wall": {"quick": 25, "thorough": 1500}},
-            {"harness": "c19_dnsnet", "flavour": "asan", "runs": {"quick": 12000, "thorough": 1200000}, "wall": {"quick": 45, "thorough": 2400}, "seed_off": 5},
+            {"harness": "c19_dnscache", "flavour": "asan", "runs": {"quick": 12000, "thorough": 1500000}, "wall": {"quick": 25, "thorough": 300}},
+            {"harness": "c19_dnsnet", "flavour": "asan", "runs": {"quick": 12000, "thorough": 1200000}, "wall": {"quick": 45, "thorough": 300}, "seed_off": 5},
         ],
     },
     "C20": {
@@ -325,7 +325,7 @@ CHECKS = {
         "assumptions": ["only FINAL path components are swapped (the code documents intermediate-component swaps as a residual, the property speaks of the final component)",
                         "the cached mode may serve bytes it read before a swap"],
         "jobs": [
-            {"harness": "c20_assets", "flavour": "asan", "runs": {"quick": 15000, "thorough": 1500000}, "wall": {"quick": 40, "thorough": 1500}},
+            {"harness": "c20_assets", "flavour": "asan", "runs": {"quick": 15000, "thorough": 1500000}, "wall": {"quick": 40, "thorough": 300}},
         ],
     },
 }
